@@ -179,13 +179,17 @@ def judge_readers(s, docs, tmpdir, rng):
         EV.STATE['quiet'] = EV.STATE.get('quiet', 0) + 1
         try:
             for mr in mc.mos_readers:
-                a = mr.mos_object
-                b = mr.mos_object
-                ok = (a is not b and str(a) == str(b) and type(a) is mr.mos_type and a.message_id == mr.message_id
-                      and a.ro_id == mr.ro_id and type(b) is type(a))
-                orig = [d for d in docs if K.message_id_of(d) == mr.message_id]
-                if orig:
-                    ok = ok and str(s.mt.MosFile.from_string(orig[0])) == str(a)
+                try:
+                    a = mr.mos_object
+                    b = mr.mos_object            # "restores a fresh, equal object every time"
+                    c = mr.mos_object
+                    ok = (a is not b and b is not c and str(a) == str(b) == str(c) and type(a) is mr.mos_type
+                          and a.message_id == mr.message_id and a.ro_id == mr.ro_id and type(b) is type(a))
+                    orig = [d for d in docs if K.message_id_of(d) == mr.message_id]
+                    if orig:
+                        ok = ok and str(s.mt.MosFile.from_string(orig[0])) == str(a)
+                except Exception as e:
+                    a, ok = e, False
                 s.evaluations += 1
                 s.note_sig(('reader', how, mr.mos_type.__name__, ok))
                 if not ok:
